@@ -481,7 +481,11 @@ func (in *Instance) Materialise(s M) {
 	st := in.ctx.KVStore(in.ledKey)
 	bal := getm(s, "bal")
 	for _, sym := range sortedKeys(bal) { // deterministic write order: the IAVL root depends on it
-		setBig(st, balKey(in.T.Addr20(sym), in.T.MintDenom), in.T.Amount(seti(bal[sym])))
+		adr := in.T.Addr20(sym)
+		if full, ok := in.T.fullAddr[sym]; ok {
+			adr = full // the ledger knows an account by its full address
+		}
+		setBig(st, balKey(adr, in.T.MintDenom), in.T.Amount(seti(bal[sym])))
 	}
 	setBig(st, supKey(in.T.MintDenom), in.T.Amount(geti(s, "supply")))
 }
